@@ -8,6 +8,7 @@ One `Q` is one `DummyQueue`.  An *atom* is a maximal block of code between two a
 call is a short list of atoms (`requeue = ackA ; put`, `consume = [updateDelayed ; poll] ; poll*`).
 Ghost state (not present in the code, erased before comparing with the implementation):
   * `acked`   — messages removed by ack (so that "finally acknowledged" is a place);
+  * `believes` — which consumer currently believes it holds which id (C14);
   * `limbo`   — messages removed by the `ack` half of a `requeue` whose `enqueue` half has not run
                  yet (they are in NO place of the statement; non-empty only inside a requeue call);
   * `Held.who`, `Held.frm` — which consumer took a message and from which category.
@@ -43,6 +44,9 @@ structure Q where
   processing : List Held := []               -- set[Message] (+ ghosts)
   acked : List Msg := []                     -- ghost
   limbo : List Msg := []                     -- ghost
+  /-- ghost: (consumer, id) pairs — the consumer was handed the id by `consume()` and has not since
+      disposed of it itself (ack/nack/reject/requeue by the holder, or the consumer's own finish). -/
+  believes : List (Nat × String) := []
   deriving Repr, DecidableEq, Inhabited
 
 /-! ### dict helpers (insertion-ordered) -/
@@ -71,14 +75,16 @@ def dropHeld (q : Q) (id : String) : List Held := q.processing.eraseP (·.msg.id
 
 def ackA (q : Q) (id : String) : Q :=
   match findHeld q id with
-  | some h => { q with processing := dropHeld q id, acked := q.acked ++ [h.msg] }
+  | some h => { q with processing := dropHeld q id, acked := q.acked ++ [h.msg],
+                       believes := q.believes.filter (·.2 != id) }
   | none => q
 
 /-- first half of `requeue` (`await self.ack(key)`): same code as `ackA`; the ghost records that the
     message is *between* the two halves of a requeue rather than finally acknowledged. -/
 def unholdA (q : Q) (id : String) : Q :=
   match findHeld q id with
-  | some h => { q with processing := dropHeld q id, limbo := q.limbo ++ [h.msg] }
+  | some h => { q with processing := dropHeld q id, limbo := q.limbo ++ [h.msg],
+                       believes := q.believes.filter (·.2 != id) }
   | none => q
 
 /-- second half of `requeue` (`await self.enqueue(key, payload, params)`): same code as `put`. -/
@@ -88,13 +94,15 @@ def reputA (q : Q) (m : Msg) (now : Int) (cron : String → Int → Int) : Q :=
 
 def nackA (q : Q) (id : String) : Q :=
   match findHeld q id with
-  | some h => { q with processing := dropHeld q id, dead := q.dead ++ [h.msg] }
+  | some h => { q with processing := dropHeld q id, dead := q.dead ++ [h.msg],
+                       believes := q.believes.filter (·.2 != id) }
   | none => q
 
 /-- reject body: the message goes to `simple` whatever category it was taken from. -/
 def rejectA (q : Q) (id : String) : Q :=
   match findHeld q id with
-  | some h => { q with processing := dropHeld q id, simple := q.simple ++ [h.msg] }
+  | some h => { q with processing := dropHeld q id, simple := q.simple ++ [h.msg],
+                       believes := q.believes.filter (·.2 != id) }
   | none => q
 
 /-! ### atoms of `_InMemoryConsumer` -/
@@ -161,13 +169,15 @@ def poll (q : Q) (cat : Cat) (now : Int) (topics : List String) : Option Msg × 
 /-- a successful poll and `processing.add(msg)` happen in the same atom. -/
 def pollTake (q : Q) (c : Nat) (cat : Cat) (now : Int) (topics : List String) : Option Msg × Q :=
   match poll q cat now topics with
-  | (some m, q') => (some m, { q' with processing := q'.processing ++ [{ msg := m, who := c, frm := cat }] })
+  | (some m, q') => (some m, { q' with processing := q'.processing ++ [{ msg := m, who := c, frm := cat }],
+                                       believes := q'.believes ++ [(c, m.id)] })
   | (none, q') => (none, q')
 
 /-- `finish()`: `while processing: simple.put_nowait(processing.pop())` — `set.pop()` order is
     arbitrary; `perm` is the order in which the entries came out (resolved from the observation). -/
-def finishA (q : Q) (perm : List Held) : Q :=
-  { q with simple := q.simple ++ perm.map (·.msg), processing := [] }
+def finishA (q : Q) (c : Nat) (perm : List Held) : Q :=
+  { q with simple := q.simple ++ perm.map (·.msg), processing := [],
+           believes := q.believes.filter (·.1 != c) }   -- only the finishing consumer lets go
 
 /-- `consume()` at call level for a single running task: first atom `update_delayed; poll`, then one
     poll per millisecond of virtual time.  The periodic `__update_delayed` (every
